@@ -18,7 +18,7 @@ Definition plain (tq : bool) (c : N) : bool :=
 Lemma step_plain : forall tq c r, plain tq c = true ->
   lex_go tq Nrm (c :: r) = consf c (lex_go tq Nrm r).
 Proof.
-  intros tq c r H. unfold plain in H. cbn [lex_go].
+  intros tq c r H. unfold plain in H. cbn [lex_gen].
   destruct (c =? 34) eqn:E1; [discriminate|].
   destruct (c =? 92) eqn:E2; [discriminate|].
   destruct (bad_raw c) eqn:E3; [discriminate|].
@@ -43,18 +43,18 @@ Proof. intros tq r. destruct r; reflexivity. Qed.
 
 Lemma step_esc_simple : forall tq c v r, simple_escape c = Some v ->
   lex_go tq Esc (c :: r) = consf v (lex_go tq Nrm r).
-Proof. intros tq c v r H. cbn [lex_go]. rewrite H. reflexivity. Qed.
+Proof. intros tq c v r H. cbn [lex_gen]. rewrite H. reflexivity. Qed.
 
 Lemma step_esc_u : forall tq r, lex_go tq Esc (117 :: r) = lex_go tq (Hex 4 0) r.
 Proof. intros tq r. destruct r; reflexivity. Qed.
 
 Lemma step_hex : forall tq k acc c v r, hexval c = Some v ->
   lex_go tq (Hex (S (S k)) acc) (c :: r) = lex_go tq (Hex (S k) (16 * acc + v)) r.
-Proof. intros tq k acc c v r H. cbn [lex_go]. rewrite H. reflexivity. Qed.
+Proof. intros tq k acc c v r H. cbn [lex_gen]. rewrite H. reflexivity. Qed.
 
 Lemma step_hex_last : forall tq acc c v r, hexval c = Some v -> (1114111 <? 16 * acc + v) = false ->
   lex_go tq (Hex 1 acc) (c :: r) = consf (16 * acc + v) (lex_go tq Nrm r).
-Proof. intros tq acc c v r H Hle. cbn [lex_go]. rewrite H. cbv zeta. rewrite Hle. reflexivity. Qed.
+Proof. intros tq acc c v r H Hle. cbn [lex_gen]. rewrite H. cbv zeta. rewrite Hle. reflexivity. Qed.
 
 Lemma step_close_dq : forall r, lex_go false Nrm (34 :: r) = Some ([], r).
 Proof. intros r. reflexivity. Qed.
@@ -63,7 +63,7 @@ Lemma step_close_tq : forall q r, q = Nrm \/ q = AfterCR -> lex_go true q (34 ::
 Proof. intros q r [-> | ->]; reflexivity. Qed.
 
 Lemma afterCR_not10 : forall tq c r, (c =? 10) = false -> lex_go tq AfterCR (c :: r) = lex_go tq Nrm (c :: r).
-Proof. intros tq c r H. cbn [lex_go]. rewrite H. reflexivity. Qed.
+Proof. intros tq c r H. cbn [lex_gen]. rewrite H. reflexivity. Qed.
 Lemma afterCR_10 : forall tq r, lex_go tq AfterCR (10 :: r) = lex_go tq Nrm r.
 Proof. intros tq r. destruct r; reflexivity. Qed.
 
@@ -225,7 +225,7 @@ Proof.
   - apply HX. exact Hq.
   - cbn [forallb] in Hs. apply andb_true_iff in Hs. destruct Hs as [Hc Hs]. cbn [app].
     assert (Hn : exists v, lex_go true Nrm (c :: s ++ X) = Some (v, rest)).
-    { unfold docplain in Hc. cbn [lex_go].
+    { unfold docplain in Hc. cbn [lex_gen].
       destruct (c =? 34) eqn:E1; [discriminate|]. destruct (c =? 92) eqn:E2; [discriminate|].
       destruct (bad_raw c) eqn:E3; [discriminate|].
       destruct (c =? 10) eqn:E4; [apply consf_some, IH; [left; reflexivity | exact Hs | exact HX]|].
@@ -283,7 +283,7 @@ Lemma step_docplain : forall c q r rest, docplain c = true -> okq q ->
 Proof.
   intros c q r rest Hc Hq Hr.
   assert (Hn : exists v, lex_go true Nrm (c :: r) = Some (v, rest)).
-  { unfold docplain in Hc. cbn [lex_go].
+  { unfold docplain in Hc. cbn [lex_gen].
     destruct (c =? 34) eqn:E1; [discriminate|]. destruct (c =? 92) eqn:E2; [discriminate|].
     destruct (bad_raw c) eqn:E3; [discriminate|].
     destruct (c =? 10) eqn:E4; [apply consf_some, Hr; left; reflexivity|].
@@ -301,7 +301,7 @@ Lemma step_lone_quote : forall q r, okq q ->
 Proof.
   intros q r Hq H.
   assert (Hn : lex_go true Nrm (34 :: r) = consf 34 (lex_go true Nrm r)).
-  { cbn [lex_go]. change (34 =? 34) with true. cbv iota.
+  { cbn [lex_gen]. change (34 =? 34) with true. cbv iota.
     destruct r as [|a [|b r']]; try reflexivity. rewrite H. reflexivity. }
   destruct Hq as [-> | ->]; [exact Hn|]. rewrite afterCR_not10 by reflexivity. exact Hn.
 Qed.
@@ -631,130 +631,125 @@ Proof.
   - rewrite E. apply N.ltb_ge. lia.
 Qed.
 
-(* the escape sequences contain no quote character: exchanging the quotes leaves them alone *)
-Lemma swapq_hexdig : forall d, d < 16 -> swapq (hexdig d) = hexdig d.
-Proof.
-  intros d H.
-  assert (d = 0 \/ d = 1 \/ d = 2 \/ d = 3 \/ d = 4 \/ d = 5 \/ d = 6 \/ d = 7 \/ d = 8 \/ d = 9 \/ d = 10
-          \/ d = 11 \/ d = 12 \/ d = 13 \/ d = 14 \/ d = 15) as D by lia.
-  repeat (destruct D as [-> | D]; [reflexivity|]). subst d. reflexivity.
-Qed.
-Lemma swapq_hex4 : forall a, a < 65536 -> map swapq (hex4 a) = hex4 a.
-Proof.
-  intros a H. destruct (hex4_bounds a H) as [B3 [B2 [B1 B0]]]. unfold hex4. cbn [map].
-  rewrite !swapq_hexdig by assumption. reflexivity.
-Qed.
-Lemma swapq_x_esc : forall c, c < 256 -> map swapq (x_esc c) = x_esc c.
-Proof.
-  intros c H. unfold x_esc, hex2. cbn [map].
-  rewrite !swapq_hexdig; [reflexivity | apply N.mod_lt; lia | apply N.div_lt_upper_bound; lia].
-Qed.
-Lemma swapq_u_esc : forall c, c < 65536 -> map swapq (u_esc c) = u_esc c.
-Proof. intros c H. unfold u_esc. cbn [map]. rewrite swapq_hex4 by exact H. reflexivity. Qed.
-Lemma swapq_U_esc : forall c, c <= 1114111 -> map swapq (U_esc c) = U_esc c.
-Proof.
-  intros c H. unfold U_esc. cbn [map]. rewrite map_app.
-  rewrite !swapq_hex4; [reflexivity | apply N.mod_lt; lia | apply N.div_lt_upper_bound; lia].
-Qed.
-Lemma swapq_invol : forall c, swapq (swapq c) = c.
-Proof.
-  intro c. unfold swapq. destruct (c =? 34) eqn:A.
-  - apply N.eqb_eq in A. subst c. reflexivity.
-  - destruct (c =? 39) eqn:B.
-    + apply N.eqb_eq in B. subst c. reflexivity.
-    + rewrite A, B. reflexivity.
-Qed.
-Lemma map_swapq_invol : forall s, map swapq (map swapq s) = s.
-Proof. induction s as [|c s IH]; [reflexivity|]. cbn [map]. rewrite swapq_invol, IH. reflexivity. Qed.
+(* ---------- the same steps for a literal delimited by either quote character *)
+Definition qok (qc : N) : Prop := qc = 34 \/ qc = 39.
+Lemma g_step_bs : forall qc tq r, qok qc -> lex_gen qc tq Nrm (92 :: r) = lex_gen qc tq Esc r.
+Proof. intros qc tq r [-> | ->]; destruct r; reflexivity. Qed.
+Lemma g_step_esc_simple : forall qc tq c v r, simple_escape c = Some v ->
+  lex_gen qc tq Esc (c :: r) = consf v (lex_gen qc tq Nrm r).
+Proof. intros qc tq c v r H. cbn [lex_gen]. rewrite H. reflexivity. Qed.
+Lemma g_step_esc_u : forall qc tq r, lex_gen qc tq Esc (117 :: r) = lex_gen qc tq (Hex 4 0) r.
+Proof. intros qc tq r. destruct r; reflexivity. Qed.
+Lemma g_step_esc_U : forall qc tq r, lex_gen qc tq Esc (85 :: r) = lex_gen qc tq (Hex 8 0) r.
+Proof. intros qc tq r. destruct r; reflexivity. Qed.
+Lemma g_step_esc_x : forall qc tq r, lex_gen qc tq Esc (120 :: r) = lex_gen qc tq (Hex 2 0) r.
+Proof. intros qc tq r. destruct r; reflexivity. Qed.
+Lemma g_step_hex : forall qc tq k acc c v r, hexval c = Some v ->
+  lex_gen qc tq (Hex (S (S k)) acc) (c :: r) = lex_gen qc tq (Hex (S k) (16 * acc + v)) r.
+Proof. intros qc tq k acc c v r H. cbn [lex_gen]. rewrite H. reflexivity. Qed.
+Lemma g_step_hex_last : forall qc tq acc c v r, hexval c = Some v -> (1114111 <? 16 * acc + v) = false ->
+  lex_gen qc tq (Hex 1 acc) (c :: r) = consf (16 * acc + v) (lex_gen qc tq Nrm r).
+Proof. intros qc tq acc c v r H Hle. cbn [lex_gen]. rewrite H. cbv zeta. rewrite Hle. reflexivity. Qed.
 
-(* one character of repr, read back in a double-quoted literal: [sw] is the identity for q = 34 and the quote
-   exchange for q = 39 (where the literal is read through lex_sq) *)
-Lemma lex_repr_esc1 : forall pr (sw : N -> N) q c X, pr_ok pr -> c <= 1114111 ->
-  ((sw = (fun x => x) /\ q = 34) \/ (sw = swapq /\ q = 39)) ->
-  lex_go false Nrm (map sw (repr_esc1 pr q c) ++ X) = consf (sw c) (lex_go false Nrm X).
+Lemma g_lex_hex4_mid : forall qc tq k acc a X, a < 65536 ->
+  lex_gen qc tq (Hex (S (S (S (S (S k))))) acc) (hex4 a ++ X) = lex_gen qc tq (Hex (S k) (65536 * acc + a)) X.
 Proof.
-  intros pr sw q c X Hpr Hm Hsw.
-  assert (Hid : forall l, (forall x, In x l -> x <> 34 /\ x <> 39) -> map sw l = l).
-  { intros l Hl. destruct Hsw as [[-> _] | [-> _]]; [apply map_id|].
-    induction l as [|x l IH]; [reflexivity|]. cbn [map]. rewrite IH by (intros y Hy; apply Hl; right; exact Hy).
-    destruct (Hl x (or_introl eq_refl)) as [A B]. unfold swapq.
-    apply N.eqb_neq in A. apply N.eqb_neq in B. rewrite A, B. reflexivity. }
-  assert (Hfix : forall x, x <> 34 -> x <> 39 -> sw x = x).
-  { intros x A B. destruct Hsw as [[-> _] | [-> _]]; [reflexivity|]. unfold swapq.
-    apply N.eqb_neq in A. apply N.eqb_neq in B. rewrite A, B. reflexivity. }
-  assert (Hswq : sw q = 34) by (destruct Hsw as [[-> ->] | [-> ->]]; reflexivity).
-  assert (Hesc : forall e, (map swapq e = e) -> map sw e = e).
-  { intros e He. destruct Hsw as [[-> _] | [-> _]]; [apply map_id | exact He]. }
-  unfold repr_esc1.
+  intros qc tq k acc a X H. destruct (hex4_bounds a H) as [B3 [B2 [B1 B0]]]. unfold hex4. cbn [app].
+  rewrite (g_step_hex qc tq _ acc _ (a / 4096)) by (apply hexval_hexdig; assumption).
+  rewrite (g_step_hex qc tq _ _ _ ((a / 256) mod 16)) by (apply hexval_hexdig; assumption).
+  rewrite (g_step_hex qc tq _ _ _ ((a / 16) mod 16)) by (apply hexval_hexdig; assumption).
+  rewrite (g_step_hex qc tq _ _ _ (a mod 16)) by (apply hexval_hexdig; assumption).
+  rewrite hex4_acc by exact H. reflexivity.
+Qed.
+Lemma g_lex_hex4_last : forall qc tq acc a X, a < 65536 -> 65536 * acc + a <= 1114111 ->
+  lex_gen qc tq (Hex 4 acc) (hex4 a ++ X) = consf (65536 * acc + a) (lex_gen qc tq Nrm X).
+Proof.
+  intros qc tq acc a X H Hm. destruct (hex4_bounds a H) as [B3 [B2 [B1 B0]]]. unfold hex4. cbn [app].
+  rewrite (g_step_hex qc tq _ acc _ (a / 4096)) by (apply hexval_hexdig; assumption).
+  rewrite (g_step_hex qc tq _ _ _ ((a / 256) mod 16)) by (apply hexval_hexdig; assumption).
+  rewrite (g_step_hex qc tq _ _ _ ((a / 16) mod 16)) by (apply hexval_hexdig; assumption).
+  rewrite (g_step_hex_last qc tq _ _ (a mod 16)).
+  - rewrite hex4_acc by exact H. reflexivity.
+  - apply hexval_hexdig; assumption.
+  - rewrite hex4_acc by exact H. apply N.ltb_ge. exact Hm.
+Qed.
+Lemma g_lex_u_esc : forall qc tq c X, qok qc -> c < 65536 ->
+  lex_gen qc tq Nrm (u_esc c ++ X) = consf c (lex_gen qc tq Nrm X).
+Proof.
+  intros qc tq c X Hq H. unfold u_esc. cbn [app]. rewrite (g_step_bs qc tq _ Hq), g_step_esc_u.
+  rewrite g_lex_hex4_last; [replace (65536 * 0 + c) with c by lia; reflexivity | exact H | lia].
+Qed.
+Lemma g_lex_U_esc : forall qc tq c X, qok qc -> c <= 1114111 ->
+  lex_gen qc tq Nrm (U_esc c ++ X) = consf c (lex_gen qc tq Nrm X).
+Proof.
+  intros qc tq c X Hq H. unfold U_esc. cbn [app]. rewrite (g_step_bs qc tq _ Hq), g_step_esc_U. rewrite <- app_assoc.
+  assert (c / 65536 < 65536) by (apply N.div_lt_upper_bound; lia).
+  assert (c mod 65536 < 65536) by (apply N.mod_lt; lia).
+  assert (E : 65536 * (65536 * 0 + c / 65536) + c mod 65536 = c) by (pose proof (N.div_mod c 65536); lia).
+  rewrite (g_lex_hex4_mid qc tq 3 0 (c / 65536)) by assumption.
+  rewrite g_lex_hex4_last; [rewrite E; reflexivity | assumption | lia].
+Qed.
+Lemma g_lex_x_esc : forall qc tq c X, qok qc -> c < 256 ->
+  lex_gen qc tq Nrm (x_esc c ++ X) = consf c (lex_gen qc tq Nrm X).
+Proof.
+  intros qc tq c X Hq H. unfold x_esc, hex2. cbn [app]. rewrite (g_step_bs qc tq _ Hq), g_step_esc_x.
+  assert (c / 16 < 16) by (apply N.div_lt_upper_bound; lia).
+  assert (c mod 16 < 16) by (apply N.mod_lt; lia).
+  assert (E : 16 * (16 * 0 + c / 16) + c mod 16 = c) by (pose proof (N.div_mod c 16); lia).
+  rewrite (g_step_hex qc tq 0 0 _ (c / 16)) by (apply hexval_hexdig; assumption).
+  rewrite (g_step_hex_last qc tq _ _ (c mod 16)).
+  - rewrite E. reflexivity.
+  - apply hexval_hexdig; assumption.
+  - rewrite E. apply N.ltb_ge. lia.
+Qed.
+(* an ordinary character of a one-line literal delimited by qc *)
+Lemma g_step_plain : forall qc c r, (c =? qc) = false -> (c =? 92) = false -> bad_raw c = false ->
+  (c =? 10) = false -> (c =? 13) = false ->
+  lex_gen qc false Nrm (c :: r) = consf c (lex_gen qc false Nrm r).
+Proof. intros qc c r H1 H2 H3 H4 H5. cbn [lex_gen]. rewrite H1, H2, H3, H4, H5. reflexivity. Qed.
+
+(* one character of repr, read back inside a literal delimited by the same quote character *)
+Lemma lex_repr_esc1 : forall pr qc c X, pr_ok pr -> c <= 1114111 -> qok qc ->
+  lex_gen qc false Nrm (repr_esc1 pr qc c ++ X) = consf c (lex_gen qc false Nrm X).
+Proof.
+  intros pr qc c X Hpr Hm Hq. unfold repr_esc1.
   destruct (c =? 92) eqn:E92.
-  { apply N.eqb_eq in E92; subst c. rewrite (Hesc [92;92] eq_refl). rewrite (Hfix 92) by discriminate.
-    cbn [app]. rewrite step_bs. apply step_esc_simple. reflexivity. }
-  destruct (c =? q) eqn:Eq.
-  { apply N.eqb_eq in Eq; subst c. cbn [map app]. rewrite (Hfix 92) by discriminate. rewrite Hswq.
-    rewrite step_bs. apply step_esc_simple. reflexivity. }
+  { apply N.eqb_eq in E92; subst c. cbn [app]. rewrite (g_step_bs qc false _ Hq). apply g_step_esc_simple. reflexivity. }
+  destruct (c =? qc) eqn:Eq.
+  { apply N.eqb_eq in Eq; subst c. cbn [app]. rewrite (g_step_bs qc false _ Hq). apply g_step_esc_simple.
+    destruct Hq as [-> | ->]; reflexivity. }
   destruct (c =? 9) eqn:E9.
-  { apply N.eqb_eq in E9; subst c. rewrite (Hesc [92;116] eq_refl). rewrite (Hfix 9) by discriminate.
-    cbn [app]. rewrite step_bs. apply step_esc_simple. reflexivity. }
+  { apply N.eqb_eq in E9; subst c. cbn [app]. rewrite (g_step_bs qc false _ Hq). apply g_step_esc_simple. reflexivity. }
   destruct (c =? 10) eqn:E10.
-  { apply N.eqb_eq in E10; subst c. rewrite (Hesc [92;110] eq_refl). rewrite (Hfix 10) by discriminate.
-    cbn [app]. rewrite step_bs. apply step_esc_simple. reflexivity. }
+  { apply N.eqb_eq in E10; subst c. cbn [app]. rewrite (g_step_bs qc false _ Hq). apply g_step_esc_simple. reflexivity. }
   destruct (c =? 13) eqn:E13.
-  { apply N.eqb_eq in E13; subst c. rewrite (Hesc [92;114] eq_refl). rewrite (Hfix 13) by discriminate.
-    cbn [app]. rewrite step_bs. apply step_esc_simple. reflexivity. }
+  { apply N.eqb_eq in E13; subst c. cbn [app]. rewrite (g_step_bs qc false _ Hq). apply g_step_esc_simple. reflexivity. }
   destruct ((c <? 32) || (c =? 127)) eqn:Ectl.
-  { assert (c < 256).
-    { apply orb_true_iff in Ectl. destruct Ectl as [A|A]; [apply N.ltb_lt in A | apply N.eqb_eq in A]; lia. }
-    assert (c <> 34 /\ c <> 39).
-    { apply orb_true_iff in Ectl. destruct Ectl as [A|A]; [apply N.ltb_lt in A | apply N.eqb_eq in A]; lia. }
-    rewrite (Hesc _ (swapq_x_esc c H)). rewrite (Hfix c) by tauto. apply lex_x_esc. exact H. }
-  apply orb_false_iff in Ectl. destruct Ectl as [E32 E127]. apply N.ltb_ge in E32. apply N.eqb_neq in E127.
-  apply N.eqb_neq in E92.
+  { apply g_lex_x_esc; [exact Hq|]. apply orb_true_iff in Ectl.
+    destruct Ectl as [A|A]; [apply N.ltb_lt in A | apply N.eqb_eq in A]; lia. }
+  apply orb_false_iff in Ectl. destruct Ectl as [E32 E127]. apply N.ltb_ge in E32.
   destruct (c <? 127) eqn:Easc.
-  { (* printable ASCII other than backslash and the literal's quote *)
-    apply N.ltb_lt in Easc. cbn [map app]. apply step_plain.
-    assert (Hne : sw c <> 34).
-    { destruct Hsw as [[-> ->] | [-> ->]].
-      - apply N.eqb_neq. exact Eq.
-      - apply N.eqb_neq in Eq. unfold swapq. destruct (c =? 34) eqn:A; [discriminate|].
-        destruct (c =? 39) eqn:B; [apply N.eqb_eq in B; contradiction|]. apply N.eqb_neq. exact A. }
-    assert (Hrange : 32 <= sw c /\ sw c < 127 /\ sw c <> 92).
-    { destruct Hsw as [[-> _] | [-> _]]; [lia|]. unfold swapq.
-      destruct (c =? 34) eqn:A; [lia|]. destruct (c =? 39) eqn:B; lia. }
-    unfold plain, bad_raw, is_surrogate.
-    replace (sw c =? 34) with false by (symmetry; apply N.eqb_neq; exact Hne).
-    replace (sw c =? 92) with false by (symmetry; apply N.eqb_neq; lia).
-    replace (sw c =? 0) with false by (symmetry; apply N.eqb_neq; lia).
-    replace (55296 <=? sw c) with false by (symmetry; apply N.leb_gt; lia).
-    replace (1114111 <? sw c) with false by (symmetry; apply N.ltb_ge; lia).
-    replace (sw c =? 13) with false by (symmetry; apply N.eqb_neq; lia).
-    replace (sw c =? 10) with false by (symmetry; apply N.eqb_neq; lia).
-    reflexivity. }
+  { apply N.ltb_lt in Easc. cbn [app]. apply g_step_plain; try assumption.
+    unfold bad_raw, is_surrogate.
+    replace (c =? 0) with false by (symmetry; apply N.eqb_neq; lia).
+    replace (55296 <=? c) with false by (symmetry; apply N.leb_gt; lia).
+    replace (1114111 <? c) with false by (symmetry; apply N.ltb_ge; lia). reflexivity. }
   apply N.ltb_ge in Easc.
-  assert (Hc : c <> 34 /\ c <> 39) by lia.
   destruct (pr c) eqn:Epr.
-  { destruct (Hpr c Epr) as [H128 [Hbad Hbrk]]. cbn [map app]. rewrite (Hfix c) by tauto. apply step_plain.
-    unfold plain. rewrite Hbad.
-    replace (c =? 34) with false by (symmetry; apply N.eqb_neq; lia).
-    replace (c =? 92) with false by (symmetry; apply N.eqb_neq; lia).
-    replace (c =? 13) with false by (symmetry; apply N.eqb_neq; lia).
-    replace (c =? 10) with false by (symmetry; apply N.eqb_neq; lia). reflexivity. }
-  rewrite (Hfix c) by tauto.
-  destruct (c <? 256) eqn:E256.
-  { apply N.ltb_lt in E256. rewrite (Hesc _ (swapq_x_esc c E256)). apply lex_x_esc. exact E256. }
-  destruct (c <? 65536) eqn:E64k.
-  { apply N.ltb_lt in E64k. rewrite (Hesc _ (swapq_u_esc c E64k)). apply lex_u_esc. exact E64k. }
-  rewrite (Hesc _ (swapq_U_esc c Hm)). apply lex_U_esc. exact Hm.
+  { destruct (Hpr c Epr) as [H128 [Hbad Hbrk]]. cbn [app]. apply g_step_plain; try assumption. }
+  destruct (c <? 256) eqn:E256; [apply g_lex_x_esc; [exact Hq | apply N.ltb_lt; exact E256]|].
+  destruct (c <? 65536) eqn:E64k; [apply g_lex_u_esc; [exact Hq | apply N.ltb_lt; exact E64k]|].
+  apply g_lex_U_esc; assumption.
 Qed.
 
-Lemma lex_repr_body : forall pr (sw : N -> N) q t X, pr_ok pr -> in_range t = true ->
-  ((sw = (fun x => x) /\ q = 34) \/ (sw = swapq /\ q = 39)) ->
-  lex_go false Nrm (map sw (flat_map (repr_esc1 pr q) t) ++ X) = prepend (map sw t) (lex_go false Nrm X).
+Lemma lex_repr_body : forall pr qc t X, pr_ok pr -> in_range t = true -> qok qc ->
+  lex_gen qc false Nrm (flat_map (repr_esc1 pr qc) t ++ X) = prepend t (lex_gen qc false Nrm X).
 Proof.
-  intros pr sw q t X Hpr Hr Hsw. revert X. induction t as [|c t IH]; intro X.
+  intros pr qc t X Hpr Hr Hq. revert X. induction t as [|c t IH]; intro X.
   - cbn. rewrite prepend_nil. reflexivity.
   - unfold in_range in Hr. cbn [forallb] in Hr. apply andb_true_iff in Hr. destruct Hr as [Hc Ht].
-    apply N.leb_le in Hc. cbn [flat_map map]. rewrite map_app, <- app_assoc.
-    rewrite (lex_repr_esc1 pr sw q c _ Hpr Hc Hsw). rewrite (IH Ht). rewrite prepend_cons. reflexivity.
+    apply N.leb_le in Hc. cbn [flat_map]. rewrite <- app_assoc.
+    rewrite (lex_repr_esc1 pr qc c _ Hpr Hc Hq). rewrite (IH Ht). rewrite prepend_cons. reflexivity.
 Qed.
 
 Lemma repr_esc1_head : forall pr q c, match repr_esc1 pr q c with d :: _ => d = 92 \/ (d = c /\ c <> q) | [] => False end.
@@ -780,27 +775,27 @@ Proof.
     unfold lex_lit. cbn [app]. change (34 =? 39) with false. cbv iota.
     change (lex_str (dq (flat_map (repr_esc1 pr 34) t) ++ rest) = Some (t, rest)).
     rewrite lex_str_dq.
-    + pose proof (lex_repr_body pr (fun x => x) 34 t (34 :: rest) Hpr Hr (or_introl (conj eq_refl eq_refl))) as L.
-      rewrite !map_id in L. rewrite L. rewrite step_close_dq. cbn [prepend]. rewrite app_nil_r. reflexivity.
+    + rewrite (lex_repr_body pr 34 t (34 :: rest) Hpr Hr (or_introl eq_refl)).
+      rewrite step_close_dq. cbn [prepend]. rewrite app_nil_r. reflexivity.
     + destruct rest as [|d r]; [exact I|]. cbn. apply Hrest.
     + destruct t as [|c t]; [exact I|]. cbn [flat_map].
       pose proof (repr_esc1_head pr 34 c) as Hh. destruct (repr_esc1 pr 34 c) as [|d l]; [contradiction|].
       cbn [app]. destruct Hh as [-> | [-> Hne]]; [discriminate | exact Hne].
-  - (* single-quoted: read through the quote exchange *)
+  - (* single-quoted *)
     unfold lex_lit. cbn [app]. change (39 =? 39) with true. cbv iota. unfold lex_sq.
-    cbn [map]. change (swapq 39) with 34. rewrite !map_app. cbn [map]. change (swapq 39) with 34.
-    replace (34 :: (map swapq (flat_map (repr_esc1 pr 39) t) ++ [34]) ++ map swapq rest)
-      with (dq (map swapq (flat_map (repr_esc1 pr 39) t)) ++ map swapq rest) by reflexivity.
-    rewrite lex_dq_dq.
-    + rewrite (lex_repr_body pr swapq 39 t _ Hpr Hr (or_intror (conj eq_refl eq_refl))).
-      rewrite step_close_dq. cbn [prepend]. rewrite app_nil_r. rewrite !map_swapq_invol. reflexivity.
-    + destruct rest as [|d r]; [exact I|]. cbn [map hd_not_quote]. destruct Hrest as [A B]. unfold swapq.
-      apply N.eqb_neq in A. rewrite A. destruct (d =? 39) eqn:E; [apply N.eqb_eq in E; contradiction | apply N.eqb_neq; exact A].
-    + destruct t as [|c t]; [exact I|]. cbn [flat_map]. rewrite map_app.
-      pose proof (repr_esc1_head pr 39 c) as Hh. destruct (repr_esc1 pr 39 c) as [|d l]; [contradiction|].
-      cbn [map app]. destruct Hh as [-> | [-> Hne]]; [discriminate|].
-      unfold swapq. destruct (c =? 34) eqn:A; [discriminate|]. destruct (c =? 39) eqn:E; [apply N.eqb_eq in E; contradiction|].
-      apply N.eqb_neq. exact A.
+    assert (Hs3 : starts3sq (39 :: (flat_map (repr_esc1 pr 39) t ++ [39]) ++ rest) = false).
+    { destruct t as [|c t].
+      - cbn [flat_map app starts3sq]. destruct rest as [|d r]; [reflexivity|]. destruct Hrest as [_ B].
+        apply N.eqb_neq in B. rewrite B. cbn. destruct r; reflexivity.
+      - cbn [flat_map]. pose proof (repr_esc1_head pr 39 c) as Hh.
+        destruct (repr_esc1 pr 39 c) as [|d l]; [contradiction|]. cbn [app].
+        assert (Hd : (d =? 39) = false) by (destruct Hh as [-> | [-> Hne]]; [reflexivity | apply N.eqb_neq; exact Hne]).
+        remember (((l ++ flat_map (repr_esc1 pr 39) t) ++ [39]) ++ rest) as T.
+        change (match T with c0 :: _ => (39 =? 39) && (d =? 39) && (c0 =? 39) | [] => false end = false).
+        destruct T; [reflexivity|]. rewrite Hd. reflexivity. }
+    rewrite Hs3. change (39 =? 39) with true. cbv iota. rewrite <- app_assoc.
+    rewrite (lex_repr_body pr 39 t _ Hpr Hr (or_intror eq_refl)).
+    cbn [app lex_gen]. change (39 =? 39) with true. cbv iota. cbn [prepend]. rewrite app_nil_r. reflexivity.
 Qed.
 
 (* ================================================================== the repaired sites: FULL theorems *)
@@ -889,8 +884,7 @@ Theorem ascii_lit_inert : forall t rest, in_range t = true -> hd_not_quote rest 
 Proof.
   intros t rest Hr Hrest. rewrite reflow_id.
   - unfold ascii_lit. rewrite lex_str_dq; [| exact Hrest |].
-    + pose proof (lex_repr_body (fun _ => false) (fun x => x) 34 t (34 :: rest) pr_none_ok Hr (or_introl (conj eq_refl eq_refl))) as L.
-      rewrite !map_id in L. rewrite L. rewrite step_close_dq. cbn [prepend]. rewrite app_nil_r. reflexivity.
+    + rewrite (lex_repr_body (fun _ => false) 34 t (34 :: rest) pr_none_ok Hr (or_introl eq_refl)). rewrite step_close_dq. cbn [prepend]. rewrite app_nil_r. reflexivity.
     + destruct t as [|c t]; [exact I|]. cbn [flat_map].
       pose proof (repr_esc1_head (fun _ => false) 34 c) as Hh. destruct (repr_esc1 (fun _ => false) 34 c) as [|d l]; [contradiction|].
       cbn [app]. destruct Hh as [-> | [-> Hne]]; [discriminate | exact Hne].
